@@ -1,90 +1,90 @@
 """C09 - emergency exit penalty is bounded, decays to zero and is fully accounted for (structural part)."""
 import re
-from rules.common import (PredTrue, PredFalse, CallTrue, where, flat_atoms, all_origins, exact_origins, ops_of, show, origin_match,
-                          pred_test, data_test, field_val)
-from rules.C08 import EMERGENCY_FLAG, IS_EXPIRED_F, penalty_calls
+from rules.common import (opmap, PredTrue, PredFalse, CallTrue, where, flat_atoms, all_origins, exact_origins, ops_of, show, origin_match,
+                          pred_test, data_test, field_val, rel, rel_sign, om, find_rel, sends_to)
+from rules.C08 import EMERGENCY_FLAG, IS_EXPIRED_F, penalty_calls, PENALTY_TO
 from base import CutPolicy, dep_origins
-from rules.common import rel, rel_sign, om, find_rel
 from absint import EMPTY, vfield, tagvals, const_of
 
-EXPLANATION = ("static analysis (MIR abstract interpretation): the penalty passes `min` with MAX_PENALTY_CAP (= 90%, constant-checked; share "
-               "50%); `total_penalty_fee < amount` cuts every penalty message; penalty messages are reachable only with "
-               "emergency_unlock == Some(true) and !is_expired; recipients are farm owners passing the active-farm filter or the fee "
-               "collector; with no active farm owner the fee collector receives the same value as the total; round-down only; the "
-               "penalty depends on time, expiry, duration, base penalty and amount")
+EXPLANATION = ("static analysis (MIR abstract interpretation): every penalty transfer's amount passes `min` with the 90% cap constant (share "
+               "50%, constants checked) and derives from base penalty, remaining time, duration and amount; `total_penalty_fee < amount` "
+               "cuts every penalty transfer; penalty transfers are reachable only with emergency_unlock == Some(true) and !is_expired; "
+               "recipients are farm owners passing the active-farm filter or the fee collector; with no active farm owner the fee "
+               "collector receives the same value as the total; round-down only; penalty shares are paid over the de-duplicated owner set")
 ASSUMPTIONS = ["<= 90% as a number, monotone decay and the split inequality are arithmetic facts not decided here"]
 TECHNIQUE = "static analysis: operator-class provenance (min/cap, rounding), guard cut-sets, recipient provenance, constants"
-LEVEL_TEXT = "Structural obligations over all paths of ManagePosition::Withdraw and calculate_emergency_penalty."
+LEVEL_TEXT = "Structural obligations over all paths of ManagePosition::Withdraw (and, best effort, of the penalty helper)."
 LEVEL_NOTE = "Not decided: numeric bound, decay monotonicity, n*floor(x/n) <= x."
 FM = "farm_manager"
 WD = ("ManagePosition", ".action", "Withdraw")
 FLOORS = {"CUT-penalty": 3, "PROV-penalty-recipient": 2}
+AMT = r"^Store\(POSITIONS\)\.lp_asset\.amount$"
+is_total = lambda v: "Store(CONFIG).emergency_unlock_penalty" in all_origins(v)   # noqa: E731
 
 
-def const_call(W, cid):
-    b = W.F.get(cid)
-    if b is None:
-        return None
-    for blk in b.blocks:
-        t = blk["term"]
-        if t["k"] == "call":
-            return (t.get("callee", ""), [a.get("text") for a in t["args"]])
-    return None
+def percent_consts(W):
+    """{const id: n} for constants of farm-manager defined as Decimal::percent(n)"""
+    out = {}
+    for b in W.F.fns(FM):
+        if b.kind != "const":
+            continue
+        for blk in b.blocks:
+            t = blk["term"]
+            if t["k"] == "call" and t.get("callee", "").endswith("Decimal::percent") and t["args"]:
+                m = re.search(r"(\d+)_u64", t["args"][0].get("text", ""))
+                if m:
+                    out[b.id] = int(m.group(1))
+    return out
+
+
+def amount_of(A, e):
+    return A.d(vfield(vfield(field_val(e, "amount"), "[*]"), "amount"))
 
 
 def run(W, chk):
-    cap = const_call(W, "farm_manager::position::helpers::MAX_PENALTY_CAP")
-    shr = const_call(W, "farm_manager::position::helpers::PENALTY_FEE_SHARE")
-    chk.expect(cap is not None and cap[0].endswith("Decimal::percent") and cap[1] in (["const 90_u64"], ["90_u64"]), "CONST-penalty", "MAX_PENALTY_CAP",
-               "Decimal::percent(90)", "MAX_PENALTY_CAP is %s" % (cap,), "")
-    chk.expect(shr is not None and shr[0].endswith("Decimal::percent") and shr[1] in (["const 50_u64"], ["50_u64"]), "CONST-penalty", "PENALTY_FEE_SHARE",
-               "Decimal::percent(50)", "PENALTY_FEE_SHARE is %s" % (shr,), "")
-    H = W.run_fn("farm_manager::position::helpers::calculate_emergency_penalty")
-    r = H.ret if H.ret is not None else EMPTY
-    m = {}
-    for (o, ops) in flat_atoms(r):
-        m.setdefault(o, set()).update(ops)
-    capo = m.get("Const(farm_manager::position::helpers::MAX_PENALTY_CAP)")
-    chk.expect(capo is not None and all("min" in ops for o, ops in m.items() if not o.startswith("Const(")), "PROV-penalty-cap", "calculate_emergency_penalty",
-               "returned penalty = min(computed, MAX_PENALTY_CAP)", "penalty is not capped by min(.., MAX_PENALTY_CAP): %s" % {k: sorted(v) for k, v in list(m.items())[:6]}, H.entry)
-    need = {"position.expiring_at", "position.unlocking_duration", "position.lp_asset.amount", "base_emergency_penalty", "current_time"}
-    chk.expect(need <= set(m), "DEP-penalty", "calculate_emergency_penalty", "penalty depends on remaining time, duration, amount (weight multiplier) and the base penalty",
-               "penalty does not depend on %s" % sorted(need - set(m)), H.entry)
-    allops = set().union(*m.values()) if m else set()
-    chk.expect("div_ceil" not in allops and "wrap" not in allops, "ROUND-penalty", "calculate_emergency_penalty", "no round-up / wrapping operator",
-               "penalty operator classes %s" % sorted(allops), H.entry)
+    pc_ = percent_consts(W)
+    caps = [k for k, v in pc_.items() if v == 90]
+    shares = [k for k, v in pc_.items() if v == 50]
+    chk.expect(len(caps) == 1 and len(shares) == 1, "CONST-penalty", "cap/share", "one 90% constant (cap) and one 50% constant (owner share)",
+               "percent constants in farm-manager: %s" % pc_, "")
+    cap_origin = "Const(%s)" % caps[0] if caps else "Const(?)"
 
     A = W.run(FM, "execute", WD)
     pc = penalty_calls(A)
-    chk.expect(len(pc) == 2, "WHO-penalty-msgs", "Withdraw", "two penalty message sites (farm owners, fee collector)", "%d penalty message sites" % len(pc), A.entry)
+    rec = sorted(tuple(sorted(exact_origins(A.d(field_val(e, "to_address"))))) for e in pc)
+    chk.expect(rec == [("Store(CONFIG).fee_collector_addr",), ("Store(FARMS).owner",)], "WHO-penalty-msgs", "Withdraw",
+               "two penalty transfer sites (farm owners, fee collector)", "penalty transfer sites: %s" % rec, A.entry)
     for e in pc:
-        to = exact_origins(e.extra["dargs"][2])
-        chk.expect(to in ({"Store(FARMS).owner"}, {"Store(CONFIG).fee_collector_addr"}), "PROV-penalty-recipient", "%s" % sorted(to),
-                   "penalty goes to an active farm's owner or to the fee collector", "penalty recipient %s" % sorted(all_origins(e.extra["dargs"][2])), where(e))
-        den = exact_origins(e.extra["dargs"][0])
+        to = exact_origins(A.d(field_val(e, "to_address")))
+        am = opmap(amount_of(A, e))
+        den = exact_origins(A.d(vfield(vfield(field_val(e, "amount"), "[*]"), "denom")))
         chk.expect(den == {"Store(POSITIONS).lp_asset.denom"}, "PROV-penalty-recipient", "denom:%s" % sorted(to), "paid in the position's LP denom", "penalty denom %s" % sorted(den), where(e))
-        o2 = ops_of(e.extra["dargs"][1])
-        chk.expect("div_ceil" not in o2, "ROUND-penalty", "share:%s" % sorted(to), "round-down only", "penalty share ops %s" % sorted(o2), where(e))
-    uniq_owners(chk, A)
-    # total < amount cuts all penalty messages
-    AMT = r"^Store\(POSITIONS\)\.lp_asset\.amount$"
-    is_total = lambda v: "Store(CONFIG).emergency_unlock_penalty" in all_origins(v)   # noqa: E731
+        allops = set().union(*am.values()) if am else set()
+        need = {"Store(CONFIG).emergency_unlock_penalty", "Store(POSITIONS).expiring_at", "Store(POSITIONS).unlocking_duration", "Store(POSITIONS).lp_asset.amount", "env.block.time"}
+        capped = cap_origin in am and all("min" in am[o] for o in need if o in am)
+        chk.expect(need <= set(am) and capped and "div_ceil" not in allops and "wrap" not in allops, "PROV-penalty-cap", "amount:%s" % sorted(to),
+                   "penalty = f(base, remaining time, duration, amount) passed through min(.., 90% cap), round-down only",
+                   "penalty amount: missing inputs %s, capped %s, ops %s" % (sorted(need - set(am)), capped, sorted(allops & {"div_ceil", "wrap", "min", "max"})), where(e))
+    from rules.C09 import uniq_owners as _u
+    _u(chk, A)
     lt = PredTrue("total_penalty_fee < amount", lambda pn, pa: rel_sign(pn, pa, is_total, "<", om(AMT)))
     for nm, cut in (("penalty < amount", lt), ("emergency flag", EMERGENCY_FLAG), ("not yet expired", IS_EXPIRED_F)):
         pol = CutPolicy([cut])
         B = W.run(FM, "execute", WD, pol)
         p2 = penalty_calls(B)
-        chk.expect(bool(pol.hits) and not p2, "CUT-penalty", nm, "no penalty message without `%s`" % cut.name,
-                   "penalty messages reachable without `%s` (guard found %s)" % (cut.name, bool(pol.hits)), where(p2[0]) if p2 else B.entry)
-    # active-farm filter
-    filt = [e for e in A.events if e.kind == "invoke" and re.search(r"withdraw_position::\{closure#\d+\}$", e.name)]
-    sw = [e for e in A.switches() if re.search(r"withdraw_position::\{closure#\d+\}$", e.fn)]
-    has_start = bool(find_rel(sw, om(r"^Store\(FARMS\)\.start_epoch$"), "<=", om(r"^Query\(CurrentEpoch\)\.id$")))
-    has_exp = any(any(re.search(r"withdraw_position::\{closure#\d+\}$", c) for c in e.chain()) for e in A.calls_id(r"helpers::is_farm_expired$"))
-    no_true = all("Const(true)" not in {o for (o, ops) in e.vals[0].atoms if isinstance(o, str)} for e in filt[:1])
-    chk.expect(has_start and has_exp and bool(filt) and no_true, "CUT-active-farm-filter", "withdraw_position filter",
-               "a farm's owner shares the penalty only if start_epoch <= current and !is_farm_expired",
-               "active-farm filter: start check %s, expiry check %s, unconditional true %s" % (has_start, has_exp, not no_true), A.entry)
+        chk.expect(bool(pol.hits) and not p2, "CUT-penalty", nm, "no penalty transfer without `%s`" % cut.name,
+                   "penalty transfers reachable without `%s` (guard found %s)" % (cut.name, bool(pol.hits)), where(p2[0]) if p2 else B.entry)
+    # active-farm filter: the predicate that selects farm owners compares start_epoch with the current epoch and tests expiry
+    def is_expiry(v):
+        o = all_origins(v)
+        return {"Store(FARMS).claimed_amount", "Store(FARMS).farm_asset.amount"} <= o or any(x.startswith("Query(Epoch)") for x in o)
+    filt = [e for e in A.events if e.kind == "invoke" and e.vals and is_expiry(e.vals[0])]
+    has_start = bool(find_rel(A.switches(), om(r"^Store\(FARMS\)\.start_epoch$"), "<=", om(r"^Query\(CurrentEpoch\)\.id$")))
+    expiry = bool(filt)
+    no_true = all("Const(true)" not in {o for (o, ops) in e.vals[0].atoms if isinstance(o, str)} for e in filt)
+    chk.expect(has_start and expiry and bool(filt) and no_true, "CUT-active-farm-filter", "Withdraw",
+               "a farm's owner shares the penalty only if start_epoch <= current and the farm is not expired",
+               "active-farm filter: start check %s, expiry test %s, unconditional true %s" % (has_start, expiry, not no_true), A.entry)
     # no active owner: collector gets the total
     empty = PredFalse("assume no active farm owner", lambda pn, pa: pn == "is_empty" and origin_match(pa[0], r"^Store\(FARMS\)\.owner$"))
     pol = CutPolicy([empty])
@@ -93,29 +93,27 @@ def run(W, chk):
     tot = None
     for (e, a, s) in find_rel(B.switches(), is_total, "<", om(AMT)):
         tot = a[0] if is_total(a[0]) else a[1]
-    ok = bool(pol.hits) and len(p3) == 1 and tot is not None and exact_origins(p3[0].extra["dargs"][2]) == {"Store(CONFIG).fee_collector_addr"} \
-        and set(flat_atoms(p3[0].extra["dargs"][1])) == set(flat_atoms(tot))
+    ok = bool(pol.hits) and len(p3) == 1 and tot is not None and exact_origins(B.d(field_val(p3[0], "to_address"))) == {"Store(CONFIG).fee_collector_addr"} \
+        and set(flat_atoms(amount_of(B, p3[0]))) == set(flat_atoms(tot))
     chk.expect(ok, "PROV-all-to-collector", "no active farms", "with no active farm owner the fee collector receives exactly total_penalty_fee",
-               "with no active farm owner: %d penalty messages, amount == total: %s" % (len(p3), ok), where(p3[0]) if p3 else B.entry)
+               "with no active farm owner: %d penalty transfers, amount == total: %s" % (len(p3), ok), where(p3[0]) if p3 else B.entry)
     # owner's payout = amount - total (saturating) with the same total
-    sends = [e for e in A.aggs(r"BankMsg::Send$") if e.fn.endswith("withdraw_position")]
+    sends = sends_to(A, {"Store(POSITIONS).receiver"})
     if sends and tot is not None:
-        am = A.d(vfield(vfield(field_val(sends[0], "amount"), "[*]"), "amount"))
-        m2 = {}
-        for (o, ops) in flat_atoms(am):
-            m2.setdefault(o, set()).update(ops)
+        m2 = opmap(amount_of(A, sends[0]))
         ok = all(o in m2 and {"sat", "sub"} <= m2[o] for o in all_origins(tot) if not o.startswith("Const("))
         chk.expect(ok and "Store(POSITIONS).lp_asset.amount" in m2, "PROV-owner-payout", "withdraw", "owner receives amount - total_penalty_fee (same total)",
                    "owner payout does not subtract the total penalty: %s" % sorted(m2)[:8], where(sends[0]))
+    else:
+        chk.fail("PROV-owner-payout", "withdraw", "payout to the position receiver / total penalty comparison not found", A.entry)
 
 
 def uniq_owners(chk, A):
     """the per-owner share is total/len(owners): owners paid must be the same de-duplicated collection"""
-    loops = [e for e in A.calls(r"vec::Vec<.*IntoIterator.*::into_iter$|slice::Iter.*::into_iter$|\[T\].*::iter$") if e.fn.endswith("withdraw_position")
-             and exact_origins(vfield(A.d(e.extra["dargs"][0]), "[*]")) == {"Store(FARMS).owner"}]
-    lens = [e for e in A.calls(r"Vec::<.*>::len$") if e.fn.endswith("withdraw_position")
-            and all_origins(vfield(e.extra["dargs"][0], "[*]")) <= {"Store(FARMS).owner", "Store(FARMS)"} and all_origins(vfield(e.extra["dargs"][0], "[*]"))]
-    ok = bool(loops) and all("#uniq" in e.extra["dargs"][0].fields for e in loops) and bool(lens) and all("#uniq" in e.extra["dargs"][0].fields for e in lens)
-    chk.expect(ok, "UNIQ-penalty-owners", "withdraw_position", "owner share = commission / |distinct owners| and exactly the distinct owners are paid",
+    loops = [e for e in A.calls(r"vec::Vec<.*IntoIterator.*::into_iter$|slice::Iter.*::into_iter$|\[T\].*::iter$")
+             if exact_origins(vfield(A.d(e.extra["dargs"][0]), "[*]")) == {"Store(FARMS).owner"}]
+    lens = [e for e in A.calls(r"Vec::<.*>::len$") if exact_origins(vfield(A.d(e.extra["dargs"][0]), "[*]")) == {"Store(FARMS).owner"}]
+    ok = bool(loops) and all("#uniq" in A.d(e.extra["dargs"][0]).fields for e in loops) and bool(lens) and all("#uniq" in A.d(e.extra["dargs"][0]).fields for e in lens)
+    chk.expect(ok, "UNIQ-penalty-owners", "Withdraw", "owner share = commission / |distinct owners| and exactly the distinct owners are paid",
                "penalty shares are paid over a collection that is not the de-duplicated owner set (loops over owners: %d, divisor from set: %s): "
                "an owner of two farms is paid twice and the payout exceeds the position" % (len(loops), bool(lens)), where(loops[0]) if loops else A.entry)
